@@ -16,6 +16,16 @@ CHECKS = {
              "inside a critical section are excluded by eq_mtx; internal aios are covered as far as the traced tests reach them.",
         technique="TLA+ model checking (TLC) + gated edge-cover replay + TLC trace validation of hook traces",
         ref="DESIGN.md section 4, C02"),
+    "C06": dict(
+        text="TLA+ specs proto/Push.tla and proto/Pull.tla: one action per critical section of push.c/pull.c, environment actions of the "
+             "harness transport (connect, take, inject, peer loss) and explicit pending callbacks (task gate), model checked for "
+             "exactly-one-place, no duplication, per-connection order, back-pressure (EAGAIN / blocked sender keeps its message), one "
+             "outstanding receive per pull pipe, readiness mirrors; every transition is replayed on the real socket through the "
+             "harness transport with callbacks released one at a time.",
+        note="Trusted: TLC, harness (drv_proto.c, vtran.c, dee.c), NNG_VERIF hooks, ASan/UBSan. 2 pipes, buffer 0..2, <= 4 messages; the "
+             "transport is the harness transport (real transports are covered by C01).",
+        technique="TLA+ model checking (TLC) + gated edge-cover replay through a harness transport",
+        ref="DESIGN.md section 4, C06"),
     "C17": dict(
         text="TLA+ spec data/Msg.tla: nng_msg as two run-length encoded byte strings plus a transcription of the nni_chunk "
              "geometry and buffer content; TLC checks refinement, in-bounds copies, capacity >= length, header <= 64 for all "
